@@ -10,18 +10,25 @@ import (
 	"context"
 	"encoding/json"
 	"fmt"
+	"net/http"
+	"net/http/httptest"
 	"sort"
 	"strings"
 	"time"
 
 	metav1 "k8s.io/apimachinery/pkg/apis/meta/v1"
+	"k8s.io/apimachinery/pkg/util/sets"
+	apirequest "k8s.io/apiserver/pkg/endpoints/request"
+	"k8s.io/client-go/rest"
 
 	proxyv1alpha1 "github.com/kubewharf/kubegateway/pkg/apis/proxy/v1alpha1"
+	gatewayclientset "github.com/kubewharf/kubegateway/pkg/client/kubernetes"
 	gatewayfake "github.com/kubewharf/kubegateway/pkg/client/kubernetes/fake"
 	"github.com/kubewharf/kubegateway/pkg/flowcontrols"
 	"github.com/kubewharf/kubegateway/pkg/flowcontrols/flowcontrol"
 	"github.com/kubewharf/kubegateway/pkg/flowcontrols/remote"
 	"github.com/kubewharf/kubegateway/pkg/ratelimiter/clientsets"
+	"github.com/kubewharf/kubegateway/pkg/ratelimiter/endpoints"
 	"github.com/kubewharf/kubegateway/pkg/ratelimiter/limiter"
 
 	"verifharness/rig"
@@ -49,7 +56,11 @@ type Loop struct {
 	NGw     int    `json:"nGw"`
 	NUp     int    `json:"nUp"`
 	K8s     bool   `json:"k8s"`
-	Ops     []LOp  `json:"ops"`
+	// Wire: reports travel as they do in production — the generated client's UpdateStatus over HTTP to the limiter
+	// server's real handler chain (endpoints.BuildHandlerChain → LimiterDispatcher.reportRateLimitConditionStatus) and
+	// the answer back — instead of a direct call with deep copies. The wire must be transparent: same model, same judge.
+	Wire bool  `json:"wire,omitempty"`
+	Ops  []LOp `json:"ops"`
 }
 
 // observations (the same shapes the driver prints)
@@ -157,6 +168,8 @@ type loopRig struct {
 	client *gatewayfake.Clientset
 	gws    []*gwProc
 	slow   bool
+	ts     *httptest.Server
+	wc     gatewayclientset.Interface
 }
 
 func newGwProc(id int, nShards int, net bool) *gwProc {
@@ -171,6 +184,16 @@ func newLoopRig(h Loop) *loopRig {
 		store = "k8s"
 	}
 	r.srv = limiter.VerifC07LoopNew("verif", h.NShards, store, r.client)
+	if h.Wire {
+		// as pkg/ratelimiter/config/config.go builds the insecure handler (authentication left out: it does not look at the body)
+		resolver := &apirequest.RequestInfoFactory{APIPrefixes: sets.NewString("api", "apis"), GrouplessAPIPrefixes: sets.NewString("api")}
+		r.ts = httptest.NewServer(endpoints.BuildHandlerChain(http.NotFoundHandler(), r.srv.Limiter(), nil, nil, resolver))
+		wc, err := gatewayclientset.NewForConfig(&rest.Config{Host: r.ts.URL, QPS: 10000, Burst: 10000}) // as clientsets.go builds it
+		if err != nil {
+			panic("harness: limiter client: " + err.Error())
+		}
+		r.wc = wc
+	}
 	for g := 0; g < h.NGw; g++ {
 		r.gws = append(r.gws, newGwProc(g, h.NShards, true))
 	}
@@ -178,6 +201,9 @@ func newLoopRig(h Loop) *loopRig {
 }
 
 func (r *loopRig) close() {
+	if r.ts != nil {
+		r.ts.Close()
+	}
 	for _, g := range r.gws {
 		g.cancel()
 	}
@@ -246,7 +272,13 @@ func (r *loopRig) apply(op LOp) {
 		}
 		remote.VerifC07LoopSetInflight(x.cache, float64(op.Used))
 		cond := remote.VerifC07LoopBuildReport(upName(op.U), g.cs, x.ul.AllFlowControls()).DeepCopy() // the wire copies
-		ans, err := r.srv.Limiter().UpdateRateLimitConditionStatus(cond.Spec.UpstreamCluster, cond)
+		var ans *proxyv1alpha1.RateLimitCondition
+		var err error
+		if r.wc != nil {
+			ans, err = r.wc.ProxyV1alpha1().RateLimitConditions().UpdateStatus(context.Background(), cond, metav1.UpdateOptions{})
+		} else {
+			ans, err = r.srv.Limiter().UpdateRateLimitConditionStatus(cond.Spec.UpstreamCluster, cond)
+		}
 		if err != nil || ans == nil {
 			return // reconcile logs the error, nothing is applied
 		}
@@ -913,7 +945,7 @@ func (g *loopGen) schema(gi, u int, t int32) {
 func genLoop(c *rig.Ctx) (Loop, map[string]int) {
 	r := c.Rng
 	g := &loopGen{c: c, counts: map[string]int{}}
-	g.h = Loop{Kind: "loop", NShards: 1 + r.Intn(3), NGw: 2 + r.Intn(3), NUp: 1 + r.Intn(3), K8s: r.Intn(2) == 0}
+	g.h = Loop{Kind: "loop", NShards: 1 + r.Intn(3), NGw: 2 + r.Intn(3), NUp: 1 + r.Intn(3), K8s: r.Intn(2) == 0, Wire: r.Intn(3) == 0}
 	g.r = newLoopRig(g.h)
 	defer g.r.close()
 	g.nextID = g.h.NGw
@@ -1059,6 +1091,9 @@ func loopBucket(h Loop) string {
 	b := "loop:local-store"
 	if h.K8s {
 		b = "loop:k8s-store"
+	}
+	if h.Wire {
+		b += "+http-wire"
 	}
 	return b
 }
